@@ -402,3 +402,12 @@ _app("C11", "text", " The node-level training skeleton (is_trainable setter, ini
 _app("C11", "note", "; tie (T): py2coq_fit.py and base/FitPrelude.v (list objects with identity, the _buffers dict, try/except/re-raise); check_xy and the initialisation are parameters; "
      "create_buffer / set_buffer (memmaps) and Model.fit stay on tie (H)")
 _app("C11", "technique", " + training skeleton translated on every run and proved equal to the model (translator tie)")
+_app("C12", "text", " register_teacher, _check_node_io and check_xy are translated too (tools/vlib/py2coq_val2.py -> coq/gen/Gen_validation2.v): for Node callers the generated check_xy equals the model's on "
+     "class, descriptors and heap - a refusal leaves no teacher registered (C12_generated_check_xy_node, C12_generated_check_xy_refusal_frame).")
+_app("C07", "text", " Node.run is ALSO translated from the current source text on every run (tools/vlib/py2coq_run.py -> coq/gen/Gen_run.v) and proved equal to run_op on the one-node model for every flag "
+     "and to run_steps by default, the forward function raising at any step, so C07_run_app / C07_chunking speak about the translated loop (C07_generated_*).")
+_app("C07", "note", " Tie (T): Node.run only (through the proved specifications of the generated with_state / call of C08); Model.call / _run / run stay on tie (H).")
+_app("C07", "technique", " + Node.run translated on every run and proved equal to the model (translator tie)")
+_app("C09", "text", " The parallel glue is ALSO translated on every run (tools/vlib/py2coq_par.py -> coq/gen/Gen_parallel.v): _sort_and_unpack equals the model's, so outputs come back in input order for "
+     "every completion order of the tasks; the ESN.run dispatch numbers task i with index i and its own data; the ESN.fit lock rule, per-task data and clean-up on failure (C09_generated_*).")
+_app("C09", "note", " Tie (T) for the glue models joblib as an arbitrary permutation of the tasks (weaker than its submission-order contract); ESN.fit's last_states[-1] relies on that contract (noted).")
